@@ -22,6 +22,7 @@ HostList == [t |-> "list", addr |-> 1]
 ProbeNames == <<"t1", "t2", "t3", "t4", "t5">>
 
 Leaf == NCall("t", <<>>)
+Rep == NCall("t5", <<>>)
 RECURSIVE Leaves(_)
 RECURSIVE SumLeaves(_, _)
 Leaves(t) == IF t = Leaf THEN 1 ELSE IF "ch" \in DOMAIN t THEN SumLeaves(t.ch, 1) ELSE 0
@@ -41,6 +42,9 @@ Grow(S) ==
            \cup {NSetOp(a, b, <<43, 61>>, c) : a \in {Leaf}, b \in {Leaf}, c \in S}
            \cup {NDel(a, b) : a \in S, b \in S}
            \cup {NCall("push", <<a, b>>) : a \in S, b \in S}
+           \* the same probe (t5: always truthy, may be called any number of times) written at several operand positions
+           \cup {NIf(Rep, Rep, a) : a \in {Leaf}} \cup {NIf(a, Rep, Rep) : a \in {Leaf}} \cup {NIf(Rep, a, Rep) : a \in {Leaf}}
+           \cup {NBin(o, Rep, Rep) : o \in {"and", "or", "+", "=="}} \cup {NList(<<Rep, Rep, a>>) : a \in {Leaf}}
            \* compound assignment whose target / key is itself a subscript of a host container by a probe
            \cup {NSetOp(NIndex(NName("nn"), a), b, <<43, 61>>, c) : a \in {Leaf}, b \in {Leaf, NVal(VNum(0))}, c \in {Leaf}}
            \cup {NSetOp(NName("hl"), NIndex(NName("hl"), a), <<45, 61>>, c) : a \in {Leaf}, c \in {Leaf}}
@@ -65,7 +69,7 @@ LabelSeq(ch, i, k, acc) ==
 Outcomes == {"one", "zero", "list", "raise"}
 \* One constant holding every table.  TLC evaluates constant definitions eagerly at start-up and, while
 \* doing so, re-evaluates any other constant a definition refers to; a single LET keeps that linear.
-Model == LET seq == SetToSeq({s \in Shapes(MaxDepth) : Leaves(s) <= MaxLeaves /\ Leaves(s) >= 1})
+Model == LET seq == SetToSeq({s \in Shapes(MaxDepth) : Leaves(s) <= MaxLeaves})
              n == Len(seq)
              tree == [i \in 1..n |-> Number(NCode(<<Label(seq[i], 1).t>>), 1).t]
              lv == [i \in 1..n |-> Leaves(seq[i])]
@@ -79,9 +83,9 @@ AllScenarios == Model.scen
 ProbeBeh(o) == [h |-> "probe", ret |-> CASE o = "one" -> HInt(1) [] o = "zero" -> HInt(0) [] o = "list" -> HostList [] OTHER -> HInt(0),
                 raises |-> o = "raise"]
 C09Calls(s) == <<[tree |-> ShapeTree[s.si], nid |-> "n1", max |-> 100, ast |-> <<>>]>>
-C09Host(s) == [n \in {ProbeNames[i] : i \in 1..ShapeLeaves[s.si]} |->
-                 ProbeBeh(s.o[CHOOSE i \in 1..ShapeLeaves[s.si] : ProbeNames[i] = n])]
-C09Names0(s) == [n1 |-> [n \in {ProbeNames[i] : i \in 1..ShapeLeaves[s.si]} \cup {"nn", "hl"} |->
+C09Host(s) == [n \in {ProbeNames[i] : i \in 1..ShapeLeaves[s.si]} \cup {"t5"} |->
+                 IF n = "t5" THEN ProbeBeh("one") ELSE ProbeBeh(s.o[CHOOSE i \in 1..ShapeLeaves[s.si] : ProbeNames[i] = n])]
+C09Names0(s) == [n1 |-> [n \in {ProbeNames[i] : i \in 1..ShapeLeaves[s.si]} \cup {"nn", "hl", "t5"} |->
                             IF n = "nn" THEN NestedList ELSE IF n = "hl" THEN HostList ELSE HostFn(n)]]
 C09Heap0(s) == Heap0
 C09Bound(s) == Cap
@@ -129,7 +133,7 @@ NodeOk(n) ==
 ProbeCalls == SelectSeq([i \in 1..Len(hist) |-> IF hist[i].e = "p" THEN hist[i].name ELSE ""], LAMBDA x : x # "")
 LogIsHistory == [i \in 1..Len(mN.log) |-> mN.log[i].name] = ProbeCalls
 \* probes fire in left-to-right order of their leaves (names are numbered left to right), each at most once
-ProbeOrder == \A i, j \in 1..Len(ProbeCalls) : i < j =>
+ProbeOrder == \A i, j \in 1..Len(ProbeCalls) : (i < j /\ ProbeCalls[i] # "t5" /\ ProbeCalls[j] # "t5") =>
                  (CHOOSE a \in 1..5 : ProbeNames[a] = ProbeCalls[i]) < (CHOOSE b \in 1..5 : ProbeNames[b] = ProbeCalls[j])
 OrderInv == \A n \in AllNodes : NodeOk(n)
 =============================================================================
